@@ -54,7 +54,11 @@ fn shown(buf: &Buffer, _rs: &[[i32; 4]], _submitted: &[usize]) -> Value {
 
 fn run_schedule(sched: &Value, out: &mut Out, id: usize) -> bool {
     let cfg = sched["rect"].as_u64().unwrap_or(1);
-    let rs = rects(cfg);
+    // explicit rectangles (geometry generator Gen_SixelGeo) or one of the named configurations
+    let rs: Vec<[i32; 4]> = match sched["rects"].as_array() {
+        Some(a) if !a.is_empty() => a.iter().map(|r| { let v: Vec<i32> = r.as_array().map(|x| x.iter().map(|y| y.as_i64().unwrap_or(0) as i32).collect()).unwrap_or_default(); [v[0], v[1], v[2], v[3]] }).collect(),
+        _ => rects(cfg),
+    };
     let hist = sched["hist"].as_array().cloned().unwrap_or_default();
     verif::sixel_gate_enable(true);
     let mut buf = Buffer::create((80, 25));
